@@ -582,6 +582,16 @@ impl<'tcx> Cx<'tcx> {
         self.impl_obj(p)
     }
 
+    fn gens(&self, d: DefId) -> String {
+        let generics = self.tcx.generics_of(d);
+        let mut gens = Vec::new();
+        for i in 0..generics.count() {
+            let p = generics.param_at(i, self.tcx);
+            gens.push(esc(&p.name.to_string()));
+        }
+        arr(gens)
+    }
+
     fn impl_obj(&self, p: DefId) -> String {
         let self_ty = self.tcx.type_of(p).instantiate_identity().skip_norm_wip();
         let tr = self.tcx.impl_opt_trait_ref(p).map(|t| t.instantiate_identity().skip_norm_wip());
@@ -603,6 +613,7 @@ impl<'tcx> Cx<'tcx> {
                 },
             ),
             ("derived", format!("{}", self.tcx.is_automatically_derived(p))),
+            ("generics", self.gens(p)),
             ("predicates", arr(ps)),
             ("span", esc(&self.span(self.tcx.def_span(p)))),
             ("exp", format!("{}", self.tcx.def_span(p).from_expansion())),
@@ -755,6 +766,7 @@ impl<'tcx> Cx<'tcx> {
             } else {
                 "struct"
             })),
+            ("generics", self.gens(d)),
             ("transparent", format!("{}", repr.transparent())),
             ("repr_c", format!("{}", repr.c())),
             ("repr_int", opt_s(repr.int.map(|i| format!("{i:?}")))),
